@@ -38,6 +38,21 @@ def random_cases(seed, runs, length, spellings=("a", "A", "b", "B", "c"), values
     return cases
 
 
+def directed_cases():
+    """multi-value names (3-6 values) with predicates that reject first / middle / last values; conversions with several multi-value names"""
+    cases = []
+    for vals in ([1, 2, 3], [2, 1, 3], [3, 2, 1], [1, 1, 2, 3], [2, 3, 1, 2, 1, 3]):
+        for p in ("v1", "notv1", "ka", "notka", "none"):
+            for k in ("a", "B"):
+                ops = [{"op": "append", "k": k, "v": v} for v in vals] + [{"op": "append", "k": "c", "v": 2}, {"op": "retain", "p": p},
+                       {"op": "get", "k": k}, {"op": "iter"}, {"op": "stat"}, {"op": "drain", "c": 99}]
+                cases.append({"ops": ops})
+    for items in ([["a", 1], ["b", 1], ["b", 2], ["c", 3], ["c", 1], ["c", 2]], [["b", 2], ["a", 1], ["b", 1], ["a", 3], ["b", 3]]):
+        cases.append({"ops": [{"op": "from_http", "items": items}, {"op": "get", "k": "a"}, {"op": "get", "k": "b"}, {"op": "get", "k": "c"},
+                              {"op": "iter"}, {"op": "to_http"}, {"op": "stat"}]})
+    return cases
+
+
 def corrupt(trace_events):
     """Binding self-test: flips one observed field of a recorded trace (DESIGN.md 2.6)."""
     out = [dict(e) for e in trace_events]
@@ -82,7 +97,7 @@ def run(rep):
     binpath = vlib.build_harness(rep.workdir)
     tpath, _ = run_cases(rep, binpath, cases, "gen")
     # 3. impl -> spec: long random sequences
-    rc = random_cases(rep.seed, 60 if quick else 600, 120 if quick else 400)
+    rc = random_cases(rep.seed, 120 if quick else 1200, 200 if quick else 600) + directed_cases()
     rep.sample({"random_case_ops": rc[0]["ops"][:12]})
     run_cases(rep, binpath, rc, "rand")
     # 4. binding self-test: a corrupted observation must be rejected
